@@ -123,6 +123,11 @@ func init() {
 				if ref.TsSkewUs == nil && ref.SkewUs > 0 && ref.SkewUs < us(2*time.Minute+2*margin) {
 					ref.SkewUs = us(2*time.Minute + 2*margin)
 				}
+				// likewise a key derived for an instant exactly four minutes ahead is less than
+				// four minutes ahead of the receiver's clock when it arrives
+				if ref.KeySkewUs != nil && *ref.KeySkewUs > 0 && *ref.KeySkewUs < us(4*time.Minute+2*margin) {
+					*ref.KeySkewUs = us(4*time.Minute + 2*margin)
+				}
 				s.Profile = "c08-refuse-" + mode + "-" + tr
 			}
 			return s
